@@ -104,8 +104,26 @@ PROPERTIES = {
                 "TransmitFrame calls by 1..3 Transmitters on ONE fake conn with contexts reused along the history (the same "
                 "deadline twice in a row, alternating deadlines, none) and SetWriteDeadline / Write faults at random steps; "
                 "the conn records which deadline it was given and C07_transmit_cases is compared with the event list of "
-                "EVERY call: a call whose context has a deadline sets its own deadline on the conn before it writes.",
-        "note": _NOTE + "bufio.Scanner is modelled, not verified (oracle, DESIGN.md section 3): buffer shifting/doubling is "
+                "EVERY call: a call whose context has a deadline sets its own deadline on the conn before it writes. "
+                "CONNECTION GLUE MODEL (Socketcan/Glue.v, theorems C07_glue_*): fileConn, udpTxRx and dialCtx as forwarding "
+                "machines over scripted underlying answers, error values as Unwrap-chain trees. Proved for every history and "
+                "script: each conn operation makes exactly the listed underlying calls in order and no others, counts and data "
+                "pass through, an error comes back iff the underlying call failed - on fileConn as OpError{Op label, Net} around "
+                "the file's error with exactly one PathError level removed (C07_glue_unwrap_one_level); a Receiver / Transmitter "
+                "over fileConn sees what it sees over the script with errors mapped (C07_glue_receiver_over_fileconn, "
+                "_receiver_stream, _transmitter_over_fileconn), so the theorems above carry over; dialCtx never leaks the "
+                "provider's conn under any schedule (C07_glue_dial_no_leak, _dial_completes). FC / UD / DC lines run seeded "
+                "histories on the REAL fileConn (scripted file), the REAL udpTxRx (scripted packet conns under its two "
+                "ipv4.PacketConn for deadlines/Close incl. faults, Close twice, operations after Close; real loopback UDP "
+                "sockets for Read/Write) and the REAL dialCtx (scripted provider x ctx timing, explicit synchronisation), "
+                "and the extracted model recomputes every operation: calls seen, n, data, error structure.",
+        "note": _NOTE + "Glue model boundary: ipv4.PacketConn (x/net) between udpTxRx and the sockets is not modelled; it "
+                        "forwards Close and the deadline setters to the net.PacketConn it embeds (that field is replaced by a "
+                        "scripted one through reflect/unsafe in the harness) but does not hand ReadFrom/WriteTo to a non-UDP "
+                        "conn, so Read/Write of udpTxRx are observed on real loopback sockets only (no read/write faults there); "
+                        "multicast options, udpTransceiver, dialRaw are outside. Through fileConn a wrapped io.EOF is no longer "
+                        "recognised by bufio.Scanner: Receiver.Err() is non-nil at end of stream (C07_glue_receiver_stream). "
+                        "bufio.Scanner is modelled, not verified (oracle, DESIGN.md section 3): buffer shifting/doubling is "
                         "abstracted as re-segmentation of reads, a reader violating 0 <= n <= len(p) is not modelled. "
                         "TransmitFrame discards the byte count returned by Write: model = code, so a Write answering "
                         "(n < 16, nil) counts as a success and is never followed by a second Write "
@@ -122,8 +140,8 @@ PROPERTIES = {
                         "(fileConn, on a fake file - no CAN interface here, dialRaw itself is not run), udp (real multicast "
                         "transceiver via Dial, works offline here), tcp and unix (real loopback sockets); if a kind cannot be "
                         "set up the harness skips its U lines and says so on stderr (the kind counts U-udp/U-tcp/U-unix in the "
-                        "evidence show what ran). The glue is observed, not modelled: fileConn/udpTxRx have no Gallina model, "
-                        "the claim checked is transparency with respect to the Receiver/Transmitter models. The shared-"
+                        "evidence show what ran). In the SF/XF/U lines the glue is observed for transparency with respect to the "
+                        "Receiver/Transmitter models; its own model (Glue.v) is compared in the FC/UD/DC lines. The shared-"
                         "connection scenarios never transmit without a deadline after a call with one (TransmitFrame leaves "
                         "the connection's write deadline set; see the report), and a scenario whose short-deadline call was "
                         "itself overtaken by its deadline (process stall) is dropped. The buffer-geometry model "
@@ -150,7 +168,9 @@ RULES = {
            "answering (n, real error kind) for n 0..16 x 15 kinds x with/without deadline, alone and inside a 5-call "
            "sequence, later Writes of the call succeeding; QF lines: every 3rd Q batch again with a fault in the read "
            "script (error alone or with data, EOF / injected / real kinds) and len(blocks)+3 Receive calls; "
-           "distinct by line hash; every case counts "
+           "FC lines: 1500 histories of Write / SetWriteDeadline on the real fileConn over a scripted file against the "
+           "extracted glue model (Glue.v): the bytes reach the file unchanged, count and error structure come back as the "
+           "model says; distinct by line hash; every case counts "
            "as non-trivial (each exercises a different ID/flag/length/byte pattern)",
     "C07": "S lines = one scripted connection each: const chunk sizes 1..64 x 112 stream lengths; all cut sets for n <= 17 "
            "(20 thorough); random partitions with empty reads; error without/with data at every read index of 7 base "
@@ -174,7 +194,12 @@ RULES = {
            "datagram scripts of 1..64 frames, 300 streams cut into datagrams of arbitrary sizes (with empty datagrams), 63 "
            "oversize scripts (2032..5000 bytes after 0..200 frames), 12 scripts on the real udp transceiver; error scripts "
            "use injected + 15 real error kinds, every second one polled until 4 falses; Y lines = 150 x 3 transmitter "
-           "counts x 3 context patterns call histories on one conn. "
+           "counts x 3 context patterns call histories on one conn. FC lines = 5400 histories of 1..10 operations on the real "
+           "fileConn (150 per operation kind alone, 4000 mixed, 500 Read/Close; 40% of the file's answers fail: 15 leaf error "
+           "kinds under 0..3 wrappers PathError/SyscallError/OpError/%w, wrappers around nil, (n>0, err)); UD fake = 4000 "
+           "histories of deadline/Close operations on the real udpTxRx over scripted packet conns, UD real = 150 Read/Write "
+           "histories on loopback sockets; DC = 4 scenarios x cancel/deadline x nil/conn/typed-nil x with/without error, 4 "
+           "times (x10 in the thorough tier); kinds FC*, UD-*, DC-* in the coverage. "
            "non-trivial = at least one complete frame or a non-nil terminating error; distinct by line hash",
 }
 
